@@ -338,6 +338,43 @@ func (k *K) merkleRule(id string) {
 	if n == 0 {
 		k.r.Violate(id+"/ics23-call", "MUST-PASS", fn, site, "no call to ics23.VerifyMembership found")
 	}
+	// the key looked up in the proof is the key-path element the verifier derived from the
+	// packet: MerklePath.GetKey must return the element unchanged for every string a store key
+	// can be made of (identifier alphabet, '/' and digits). The returned term is evaluated with
+	// the analyser's own copy of the pure library functions it uses (net/url escaping).
+	if gk := k.method(pCommitment, "MerklePath", "GetKey"); gk != nil {
+		elem := FieldT(P(0), "KeyPath").String() + "[" + P(1).String() + "]"
+		var probs []string
+		undecided := ""
+		nret := 0
+		for _, rt := range gk.Returns() {
+			if rt.Kind == RetFail {
+				continue
+			}
+			nret++
+			t := gk.T.Of(RetVal(rt.Instr, 0))
+			for _, c := range append(c12Alphabet(), '/') {
+				in := "x" + strings.Repeat(string(c), 2) + "y"
+				out, ok := evalStringTerm(t, elem, in)
+				if !ok {
+					undecided = clip(t.String())
+					break
+				}
+				if out != in {
+					probs = append(probs, fmt.Sprintf("key-path element %q is looked up as %q", in, out))
+				}
+			}
+		}
+		if undecided != "" || nret == 0 {
+			k.r.Undecided(id+"/key-identity", "CONST-EVAL", fnShort(gk), k.w.Pos(gk.Fn.Pos()), "cannot evaluate the key returned by GetKey: "+undecided)
+		} else {
+			if len(probs) > 3 {
+				probs = append(probs[:3], fmt.Sprintf("... and %d more", len(probs)-3))
+			}
+			k.r.Check(len(probs) == 0, id+"/key-identity", "CONST-EVAL", fnShort(gk), k.w.Pos(gk.Fn.Pos()), "GetKey returns the key-path element unchanged for every character a store key can contain",
+				"the key proven differs from the key the sender wrote: "+strings.Join(probs, "; "))
+		}
+	}
 	// MerkleProof.VerifyMembership reaches success only through verifyChainedMembershipProof
 	vm := k.method(pCommitment, "MerkleProof", "VerifyMembership")
 	if vm != nil {
